@@ -12,6 +12,7 @@ import (
 	"bytes"
 	"context"
 	"fmt"
+	"io"
 	"os"
 	"path/filepath"
 	"strings"
@@ -20,6 +21,7 @@ import (
 	"time"
 
 	"github.com/ErdemOzgen/blackdagger/internal/dag"
+	"github.com/ErdemOzgen/blackdagger/internal/dag/executor"
 	"github.com/ErdemOzgen/blackdagger/internal/dag/scheduler"
 )
 
@@ -68,6 +70,13 @@ func splitStreams(b []byte) (o, e []byte) {
 
 // EmitChild is the body of `vh emit`: attempt counter in a state file, prints, exits 1 while att <= failUntil.
 func EmitChild(state string, nout, nerr, failUntil int, order string) int {
+	return emitTo(os.Stdout, os.Stderr, state, nout, nerr, failUntil, order)
+}
+
+// fileLike: the two streams of an attempt (the child's own descriptors, or the writers a step's executor is handed)
+type fileLike interface{ Write([]byte) (int, error) }
+
+func emitTo(stdout, stderr fileLike, state string, nout, nerr, failUntil int, order string) int {
 	att := 1
 	if b, err := os.ReadFile(state); err == nil {
 		fmt.Sscanf(string(b), "%d", &att)
@@ -77,16 +86,16 @@ func EmitChild(state string, nout, nerr, failUntil int, order string) int {
 	out, errb := EmitPattern("o", att, nout), EmitPattern("e", att, nerr)
 	switch order {
 	case "errfirst":
-		os.Stderr.Write(errb)
-		os.Stdout.Write(out)
+		stderr.Write(errb)
+		stdout.Write(out)
 	case "parallel": // both streams at the same time, in small pieces: the two pipes are drained concurrently
 		var wg sync.WaitGroup
 		for _, pr := range []struct {
-			f *os.File
+			f fileLike
 			b []byte
-		}{{os.Stdout, out}, {os.Stderr, errb}} {
+		}{{stdout, out}, {stderr, errb}} {
 			wg.Add(1)
-			go func(f *os.File, b []byte) {
+			go func(f fileLike, b []byte) {
 				defer wg.Done()
 				for len(b) > 0 {
 					k := min(173, len(b))
@@ -99,15 +108,15 @@ func EmitChild(state string, nout, nerr, failUntil int, order string) int {
 	case "chunks": // alternate in chunks of 1000 bytes
 		for len(out) > 0 || len(errb) > 0 {
 			k := min(1000, len(out))
-			os.Stdout.Write(out[:k])
+			stdout.Write(out[:k])
 			out = out[k:]
 			k = min(1000, len(errb))
-			os.Stderr.Write(errb[:k])
+			stderr.Write(errb[:k])
 			errb = errb[k:]
 		}
 	default:
-		os.Stdout.Write(out)
-		os.Stderr.Write(errb)
+		stdout.Write(out)
+		stderr.Write(errb)
 	}
 	if att <= failUntil {
 		return 1
@@ -128,6 +137,7 @@ type IOScenario struct {
 	Order     string `json:"order"`    // outfirst | errfirst | chunks
 	DoneChan  bool   `json:"doneChan"` // Schedule with a done channel (the agent's way)
 	TailLate  bool   `json:"tailLate"` // force: deferred teardown of a failed attempt runs after the next attempt was set up
+	Writer    bool   `json:"writer"`   // the step's executor writes the bytes itself (Write calls on the writers it was handed, as the jq / http / mail / docker executors do) instead of running a child
 	Repeat    int    `json:"repeat"`   // > 0: a repeating step with continueOn.failure, stopped once it has run this many iterations
 }
 
@@ -143,6 +153,11 @@ func RunNodeIO(self string, sc IOScenario, base string) Ev {
 	} else {
 		st.CmdWithArgs = cmdline
 		st.Command = self
+	}
+	if sc.Writer {
+		registerWriteExecutor()
+		st.Command, st.CmdWithArgs, st.Script = "emit", "emit", ""
+		st.ExecutorConfig = dag.ExecutorConfig{Type: "verifwrite", Config: map[string]any{"state": state, "nout": sc.NOut, "nerr": sc.NErr, "fail": sc.FailUntil, "order": sc.Order}}
 	}
 	if sc.StdoutF {
 		st.Stdout = filepath.Join(dir, "stdout.txt")
@@ -362,4 +377,35 @@ func CrashedIORecord(sc IOScenario, why string) Ev {
 	none := Ev{"got": 0, "want": 0, "equal": true, "hasLast": true, "firstDiff": -1}
 	return Ev{"id": sc.ID, "sc": sc, "hung": false, "crashed": true, "crash": trunc(why, 200), "status": "?", "attempts": 0, "retryCount": 0,
 		"logExists": false, "err": "", "log": none, "stdoutFile": none, "stderrFile": none, "outputVar": none}
+}
+
+// writeExec: an executor of the kind jq / http / mail / docker are: no child process, it calls Write on the writers the node
+// handed it. (With a child the os/exec copy loop reaches the file through bufio.Writer.ReadFrom and bypasses the buffer; Write
+// calls do not, so only this kind shows whether every buffered writer is flushed at teardown.)
+type writeExec struct {
+	stdout, stderr io.Writer
+	cfg            map[string]any
+}
+
+func (e *writeExec) SetStdout(w io.Writer) { e.stdout = w }
+func (e *writeExec) SetStderr(w io.Writer) { e.stderr = w }
+func (e *writeExec) Kill(os.Signal) error  { return nil }
+func (e *writeExec) Run() error {
+	n := func(k string) int { v, _ := e.cfg[k].(int); return v }
+	st, _ := e.cfg["state"].(string)
+	or, _ := e.cfg["order"].(string)
+	if emitTo(e.stdout, e.stderr, st, n("nout"), n("nerr"), n("fail"), or) != 0 {
+		return fmt.Errorf("attempt failed")
+	}
+	return nil
+}
+
+var writeExecOnce sync.Once
+
+func registerWriteExecutor() {
+	writeExecOnce.Do(func() {
+		executor.Register("verifwrite", func(ctx context.Context, step dag.Step) (executor.Executor, error) {
+			return &writeExec{cfg: step.ExecutorConfig.Config}, nil
+		})
+	})
 }
